@@ -92,8 +92,8 @@ Theorem cg_krylov_invariant_preserved :
   forall (b : X) (hist : list (@cgst R X)) (s s' : @cgst R X),
   krylov X A b hist s -> cg_step X vplus smul inner A s = Some s' -> krylov X A b (s :: hist) s'.
 Proof. intros X A Hs; exact (krylov_step X A Hs). Qed.
-(* gap: dim_le is shown for the instance R (n = 1, Example below); for R^n with n > 1 the
-   dimension count (n+1 vectors in R^n are linearly dependent) is not formalised. *)
+(* the dimension premise is discharged for weighted R^n of every n below (Rn_has_dimension_n),
+   giving cg_on_lists_exact_after_n_steps with no abstract premise left *)
 
 (* -------------------------------------------- CG on the normal equations *)
 (* residual |b - A x|^2 never increases (any A with adjoint, any b, start, budget) *)
@@ -379,6 +379,34 @@ Proof.
   exact (cg_lists n w H1 H2 M HM Hsa Hpsd b xs x k Hb Hxs Hx Hsol).
 Qed.
 Print Assumptions cg_on_lists.
+
+(* n+1 lists of length n are linearly dependent; weighted R^n satisfies the dimension premise *)
+Theorem linear_dependence_of_n_plus_1_vectors :
+  forall (n : nat) (vs : list (list R)), length vs = S n -> Forall (fun v => length v = n) vs ->
+  exists cs : list R, length cs = length vs /\ Exists (fun c => c <> 0) cs /\ lc n cs vs = repeat 0 n.
+Proof. exact lin_dep. Qed.
+Theorem Rn_has_dimension_n :
+  forall (n : nat) (w : list R) (Hwl : length w = n) (Hwp : Forall (fun c => 0 < c) w), dim_le (Rn n w Hwl Hwp) n.
+Proof. exact Rn_dim. Qed.
+Print Assumptions Rn_has_dimension_n.
+
+(* conjugate gradients on the list model is EXACT after n steps: every n, every positive weights,
+   every matrix that is symmetric positive definite for the weighted dot product, every right-hand
+   side with solution xs, every start, every budget k >= n (including runs that leave the loop early) *)
+Theorem cg_on_lists_exact_after_n_steps :
+  forall (n : nat) (w : list R), length w = n -> Forall (fun c => 0 < c) w ->
+  forall (M : list (list R)), wf_mat n n M ->
+  (forall x y : list R, length x = n -> length y = n -> wdot w (mvec M x) y = wdot w x (mvec M y)) ->
+  (forall v : list R, length v = n -> wdot w v (mvec M v) = 0 -> v = repeat 0 n) ->
+  forall (b xs x : list R) (k : nat),
+  length b = n -> length xs = n -> length x = n -> mvec M xs = b -> (n <= k)%nat ->
+  cg_x (list R) (last (cg_run (list R) vadd vscal (wdot w) (mvec M) b x k)
+                      (cg_init (list R) vadd vscal (wdot w) (mvec M) b x)) = xs.
+Proof.
+  intros n w H1 H2 M HM Hsa Hpd b xs x k Hb Hxs Hx Hsol Hk.
+  exact (cg_lists_exact n w H1 H2 M HM Hsa Hpd b xs x k Hb Hxs Hx Hsol Hk).
+Qed.
+Print Assumptions cg_on_lists_exact_after_n_steps.
 
 (* ------------------------------------------------------------ non-vacuity *)
 (* every hypothesis above is satisfied by concrete objects: the space R, the operator
